@@ -46,7 +46,7 @@ Print Assumptions C02_sem_operators_agree.
 Example C02_expr_example :
   let e := XCond (XBin TLess (XLocal 0) (XConst 0)) (XAnd (XLocal 1) (XConst 1)) (XUn TSub (XLocal 0)) in
   xceval [PInt 5; PInt 7] [PInt 3; PInt 0] e = Ok (PInt 0) /\
-  xmrun 100 [PInt 5; PInt 7] [PInt 3; PInt 0] (xcompile 0 e) (xcsize (xcompile 0 e)) (XRunning 0 []) = XRunning 31 [PInt 0].
+  xmrun 100 [PInt 5; PInt 7] (xcompile 0 e) (xcsize (xcompile 0 e)) (XRunning 0 [PInt 3; PInt 0] []) = XRunning 31 [PInt 3; PInt 0] [PInt 0].
 Proof. vm_compute. split; reflexivity. Qed.
 
 (* non-vacuity: slots are re-used by sibling blocks and distinct in nested ones *)
